@@ -57,14 +57,6 @@ theorem cellOk_clean {s : JStr} (h : cellOk s = true) : CellClean s := by
   simp only [cellOk, List.all_eq_true, Bool.and_eq_true, bne_iff_ne, ne_eq] at h
   exact ⟨fun h' => (h 9 h').1.1.1 rfl, fun h' => (h 10 h').1.1.2 rfl, fun h' => (h 13 h').1.2 rfl⟩
 
-theorem cellOk_lossy {s : JStr} (h : cellOk s = true) : lossy s = s := by
-  simp only [cellOk, List.all_eq_true, Bool.and_eq_true, Bool.not_eq_true'] at h
-  unfold lossy
-  conv => rhs; rw [← List.map_id s]
-  apply List.map_congr_left
-  intro c hc
-  simp [(h c hc).2]
-
 theorem namesCells_eq (names : Names) : namesCells names = (cellsOf names).flatMap (9 :: ·) := by
   induction names with
   | nil => rfl
@@ -120,40 +112,18 @@ theorem mkLine_parsed (indent : Nat) (first : JStr) (cells : List JStr)
 
 /-! ## the emitted lines -/
 
-theorem docLines_parsed (indent : Nat) (doc : Option JStr) (h : docOk doc = true) :
-    Parsed (docLines indent doc) (docT indent doc) := by
+theorem docLines_parsed (indent : Nat) (doc : Option JStr) : Parsed (docLines indent doc) (docT indent doc) := by
   cases doc with
   | none => exact Parsed.nil
   | some d =>
-    simp only [docOk, Bool.and_eq_true, List.all_eq_true, bne_iff_ne, ne_eq] at h
-    have h9 : 9 ∉ escape d := by
-      intro h'
-      rcases escape_mem h' with h'' | h'' | h''
-      · exact (h.1.1 9 h'').1 rfl
-      · omega
-      · omega
+    have hc := escape_clean d
     have hline : List.replicate indent 9 ++ [99, 9] ++ escape d = mkLine indent C_ [escape d] := by
       simp [mkLine, C_]
+    have := mkLine_parsed indent C_ [escape d] (by simp [C_]) (by simp [C_, CellClean])
+      (fun c hc' => by simp only [List.mem_singleton] at hc'; subst hc'; exact hc)
     simp only [docLines, docT]
-    apply Parsed.cons _ _ Parsed.nil
-    · rw [hline]
-      refine ⟨?_, ?_⟩
-      · intro h'
-        rcases mem_mkLine h' with h'' | h'' | ⟨c, hc, h''⟩
-        · omega
-        · simp [C_] at h''
-        · simp only [List.mem_singleton] at hc; subst hc; exact escape_no_lf d h''
-      · have hl := escape_getLast d (by simpa using h.1.2)
-        by_cases he : escape d = []
-        · rw [he]; simp [mkLine, C_]
-        · have e : mkLine indent C_ [escape d] = (List.replicate indent 9 ++ [99, 9]) ++ escape d := by simp [mkLine, C_]
-          rw [e, List.getLast?_append]
-          cases hh : (escape d).getLast? with
-          | none => exact absurd (List.getLast?_eq_none_iff.mp hh) he
-          | some z => rw [hh] at hl; simpa using hl
-    · rw [hline]
-      exact tinyLine_mkLine indent C_ [escape d] (by simp [C_]) (by simp [C_])
-        (fun c hc => by simp only [List.mem_singleton] at hc; subst hc; exact h9)
+    rw [hline]
+    exact Parsed.cons this.1 this.2 Parsed.nil
 
 theorem paramLines_parsed {n : Nat} {p : Param} (h : paramOk n p = true) : Parsed (paramLines p) (paramT p) := by
   simp only [paramOk, Bool.and_eq_true] at h
@@ -163,36 +133,36 @@ theorem paramLines_parsed {n : Nat} {p : Param} (h : paramOk n p = true) : Parse
     (fun c hc => by
       rcases List.mem_cons.mp hc with rfl | hc
       · exact digits_clean _
-      · exact namesOk_cells h.1.2 c hc)
+      · exact namesOk_cells h.2 c hc)
   simp only [paramLines, paramT]
   rw [hl]
-  exact Parsed.cons this.1 this.2 (docLines_parsed 3 p.doc h.2)
+  exact Parsed.cons this.1 this.2 (docLines_parsed 3 p.doc)
 
 theorem fieldLines_parsed {n : Nat} {f : Field} (h : fieldOk n f = true) : Parsed (fieldLines f) (fieldT f) := by
   simp only [fieldOk, Bool.and_eq_true] at h
-  have hl : [9, 102, 9] ++ lossy f.desc ++ namesCells f.names = mkLine 1 F_ (f.desc :: cellsOf f.names) := by
-    simp [mkLine, F_, namesCells_eq, cellOk_lossy h.1.1]
+  have hl : [9, 102, 9] ++ f.desc ++ namesCells f.names = mkLine 1 F_ (f.desc :: cellsOf f.names) := by
+    simp [mkLine, F_, namesCells_eq]
   have := mkLine_parsed 1 F_ (f.desc :: cellsOf f.names) (by simp [F_]) (by simp [F_, CellClean])
+    (fun c hc => by
+      rcases List.mem_cons.mp hc with rfl | hc
+      · exact cellOk_clean h.1
+      · exact namesOk_cells h.2 c hc)
+  simp only [fieldLines, fieldT]
+  rw [hl]
+  exact Parsed.cons this.1 this.2 (docLines_parsed 2 f.doc)
+
+theorem methodLines_parsed {n : Nat} {m : Method} (h : methodOk n m = true) : Parsed (methodLines m) (methodT m) := by
+  simp only [methodOk, Bool.and_eq_true, List.all_eq_true] at h
+  have hl : [9, 109, 9] ++ m.desc ++ namesCells m.names = mkLine 1 M_ (m.desc :: cellsOf m.names) := by
+    simp [mkLine, M_, namesCells_eq]
+  have := mkLine_parsed 1 M_ (m.desc :: cellsOf m.names) (by simp [M_]) (by simp [M_, CellClean])
     (fun c hc => by
       rcases List.mem_cons.mp hc with rfl | hc
       · exact cellOk_clean h.1.1
       · exact namesOk_cells h.1.2 c hc)
-  simp only [fieldLines, fieldT]
-  rw [hl]
-  exact Parsed.cons this.1 this.2 (docLines_parsed 2 f.doc h.2)
-
-theorem methodLines_parsed {n : Nat} {m : Method} (h : methodOk n m = true) : Parsed (methodLines m) (methodT m) := by
-  simp only [methodOk, Bool.and_eq_true, List.all_eq_true] at h
-  have hl : [9, 109, 9] ++ lossy m.desc ++ namesCells m.names = mkLine 1 M_ (m.desc :: cellsOf m.names) := by
-    simp [mkLine, M_, namesCells_eq, cellOk_lossy h.1.1.1]
-  have := mkLine_parsed 1 M_ (m.desc :: cellsOf m.names) (by simp [M_]) (by simp [M_, CellClean])
-    (fun c hc => by
-      rcases List.mem_cons.mp hc with rfl | hc
-      · exact cellOk_clean h.1.1.1
-      · exact namesOk_cells h.1.1.2 c hc)
   simp only [methodLines, methodT]
   rw [hl]
-  refine Parsed.cons this.1 this.2 ((docLines_parsed 2 m.doc h.1.2).append ?_)
+  refine Parsed.cons this.1 this.2 ((docLines_parsed 2 m.doc).append ?_)
   apply Parsed.flatMap
   intro p hp
   have hp' := mem_sortBy.mp hp
@@ -204,10 +174,10 @@ theorem classLines_parsed {n : Nat} {c : Class} (h : classOk n c = true) : Parse
   simp only [classOk, Bool.and_eq_true, List.all_eq_true] at h
   have hl : [99] ++ namesCells c.names = mkLine 0 C_ (cellsOf c.names) := by
     simp [mkLine, C_, namesCells_eq]
-  have := mkLine_parsed 0 C_ (cellsOf c.names) (by simp [C_]) (by simp [C_, CellClean]) (namesOk_cells h.1.1.1)
+  have := mkLine_parsed 0 C_ (cellsOf c.names) (by simp [C_]) (by simp [C_, CellClean]) (namesOk_cells h.1.1)
   simp only [classLines, classT]
   rw [hl]
-  refine Parsed.cons this.1 this.2 ((docLines_parsed 1 c.doc h.1.1.2).append (Parsed.append ?_ ?_))
+  refine Parsed.cons this.1 this.2 ((docLines_parsed 1 c.doc).append (Parsed.append ?_ ?_))
   · apply Parsed.flatMap
     intro p hp
     have hp' := mem_sortBy.mp hp
